@@ -69,3 +69,39 @@ Definition fmt_signed (b n : Z) : list Z :=
   if n <? 0 then 45 :: digits false b (- n) else digits false b n.
 (* C printf reference for %o %x %X %u: two's complement, no sign *)
 Definition c_unsigned (upper : bool) (b n : Z) : list Z := digits upper b (n mod W64).
+
+(* format.go quote() of an integer: decimal, except mininteger, written in hexadecimal
+   because the decimal literal 9223372036854775808 does not fit an integer (manual 3.1). *)
+Definition minint_hex : list Z := [48; 120; 56; 48; 48; 48; 48; 48; 48; 48; 48; 48; 48; 48; 48; 48; 48; 48].
+Definition quote_int (n : Z) : list Z := if n =? minint then minint_hex else format_int n.
+
+(* The Lua reader on such a literal (manual 3.1): a decimal integer numeral denotes an integer
+   if it fits, otherwise a float (None here); a hexadecimal one wraps around modulo 2^64;
+   a leading '-' is the unary minus applied to the numeral that follows. *)
+Definition is_hex_prefix (s : list Z) : bool :=
+  match s with
+  | a :: b :: _ :: _ => (a =? 48) && ((b =? 120) || (b =? 88))
+  | _ => false
+  end.
+Definition lit_nat (s : list Z) : option Z :=
+  if is_hex_prefix s then
+    match parse_digits 16 (skipn 2 s) 0 with
+    | Some v => let m := v mod W64 in Some (if m <=? maxint then m else m - W64)
+    | None => None
+    end
+  else
+    match s with
+    | [] => None
+    | _ => match parse_digits 10 s 0 with
+           | Some v => if v <=? maxint then Some v else None
+           | None => None
+           end
+    end.
+Definition is_minus (s : list Z) : bool := match s with c :: _ => c =? 45 | [] => false end.
+Definition lit_int (s : list Z) : option Z :=
+  if is_minus s then
+    match lit_nat (skipn 1 s) with
+    | Some v => Some (if v =? minint then minint else - v)   (* two's complement negation *)
+    | None => None
+    end
+  else lit_nat s.
